@@ -9,6 +9,7 @@ from __future__ import annotations
 
 import json
 import pathlib
+import re
 import sys
 import time
 from typing import Any, Callable, Dict, List, Optional, Sequence, Tuple
@@ -147,7 +148,7 @@ class Reference:
                     raised = True
                     continue
                 if not r:
-                    errors.append({"path": path, "cause": desc})
+                    errors.append({"path": path, "cause": desc, "id": inv_id(desc)})
         return ("raised", []) if raised else ("ok", errors)
 
 
@@ -175,6 +176,12 @@ def build(v: Dict[str, Any], T: Any) -> Any:
     raise ValueError(t)
 
 
+def inv_id(cause: str) -> str:
+    """Projection: the identity of the invariant an error speaks of = the leading words of its description."""
+    m = re.match(r"\w+ invariant \d+", cause)
+    return m.group(0) if m else ""
+
+
 def pyarg(v: Dict[str, Any]) -> Any:
     t = v["t"]
     if t == "int":
@@ -196,7 +203,7 @@ def main() -> None:
     from aas_core_codegen import intermediate
     from aas_core_codegen.intermediate import type_inference as ti
 
-    cases = json.load(open(cases_path))
+    cases = json.load(open(cases_path, encoding="utf-8"))
     scratch = pathlib.Path(out_path).parent / "c08_scratch"
     models_run: List[Dict[str, Any]] = []
     obs: List[Dict[str, Any]] = []
@@ -279,7 +286,7 @@ def main() -> None:
             except Exception as ex:
                 raise SystemExit("cannot construct instance in model %s: %r" % (model["name"], ex))
             try:
-                errors = [{"path": str(e.path), "cause": e.cause} for e in V.verify(inst)]
+                errors = [{"path": str(e.path), "cause": e.cause, "id": inv_id(e.cause)} for e in V.verify(inst)]
                 outcome = "ok"
             except Exception as ex:  # an observation
                 errors, outcome, exc = [], "raised", "%s: %s" % (type(ex).__name__, str(ex)[:120])
